@@ -263,6 +263,22 @@ func (sc *c10Scenario) Run(s *simrt.Sim) {
 		}
 	}
 	s.SetFair(true)
+	// the method-style constructor (interface{} element type) gives an equally good publisher
+	{
+		pi := fpgo.Publisher.New()
+		var got []string
+		a := pi.Subscribe(fpgo.Subscription[interface{}]{OnNext: func(v interface{}) { got = append(got, fmt.Sprint("a", v)) }})
+		pi.Subscribe(fpgo.Subscription[interface{}]{OnNext: func(v interface{}) { got = append(got, fmt.Sprint("b", v)) }})
+		op := h.Do("main", "Publisher.New-smoke", nil, func() (interface{}, error) {
+			pi.Publish(1)
+			pi.Unsubscribe(a)
+			pi.Publish("x")
+			return nil, nil
+		})
+		if op.Panic == "" && fmt.Sprint(got) != "[a1 b1 bx]" {
+			sc.extra = append(sc.extra, Violation{Clause: "api-smoke", Fingerprint: "Publisher.New", Detail: fmt.Sprintf("Publisher.New(): two subscriptions, Publish(1), Unsubscribe(a), Publish(x) delivered %v, want [a1 b1 bx]", got)})
+		}
+	}
 	if hd != nil {
 		// drain the handler: everything posted before the sentinel has run when it runs
 		drained := false
@@ -280,6 +296,7 @@ func (sc *c10Scenario) Check(res *simrt.Result) []Violation {
 		return vs
 	}
 	vs = append(vs, opPanics(sc.h)...)
+	vs = append(vs, sc.extra...)
 	mode := "sync"
 	if sc.Handler {
 		mode = "handler"
